@@ -712,11 +712,13 @@ class BaseNodeVisitor(ast.NodeVisitor):
                     ignore = f"{ignore_comment}[{error_code.name}]"
                 else:
                     ignore = ignore_comment
-                replacement = Replacement(
-                    [lineno],
-                    ["{}{}\n".format(" " * indentation, ignore), this_line],
-                    str(e),
-                )
+                if all(line.startswith("#") for line in lines[: lineno - 1]):
+                    # A comment line up here would be taken for a file-level ignore,
+                    # so put the comment at the end of the offending line.
+                    new_lines = [f"{this_line.rstrip()}  {ignore}\n"]
+                else:
+                    new_lines = ["{}{}\n".format(" " * indentation, ignore), this_line]
+                replacement = Replacement([lineno], new_lines, str(e))
             else:
                 if replacement is not None:
                     replacement.error_str = str(e)
